@@ -1057,3 +1057,10 @@ Proof.
   rewrite Hparse in Hpm. inversion Hpm; subst pm. rewrite Hlook, Hstrip.
   rewrite (expected_of_source_settings defs s otp sd Hbits). apply pitem_eqb_refl.
 Qed.
+
+(** the harness substitutes the bit-order markers by [::bits::order::{Lsb0,Msb0}]: the reading
+    hypothesis of [expected_of_source_settings] / [prop_source_roundtrip_of_model] *)
+Lemma bits_order_reading (otp : bool -> tpath) :
+  (forall lsb, otp lsb = TPath (abs_path ["bits"; "order"; if lsb then "Lsb0" else "Msb0"]) []) ->
+  forall asegs lsb, tpath_pty asegs (otp lsb) = bits_order_pty lsb.
+Proof. intros H asegs lsb. rewrite H. destruct lsb; reflexivity. Qed.
